@@ -105,6 +105,24 @@ def run(ctx):
             inserted = [c for c in origin(fb, keyarg(ins[0][1])).calls if strip_generics(cname(c)).endswith('SchemaKey::from_idx')]
         ret_keys = [c for c in ro.calls if strip_generics(cname(c)).endswith('SchemaKey::from_idx')]
         okr = bool(ret_keys) and all(any(c is i_ for i_ in inserted) for c in ret_keys) and bool(stored) and not ro.has_arith()
+        if not okr and ret_keys and inserted and bool(stored) and not ro.has_arith():
+            # the key returned is computed again (by a spliced `append` helper) as SchemaKey::from_idx(nodes.len()): the same
+            # value as the one registered iff nothing was appended to `nodes` in between
+            def blk_of(c):
+                return [bb for bb, t in fb.calls() if t is c][0]
+            grow = [bb for bb, t in fb.calls() if not fb.is_cleanup(bb) and (call_matches(t, ['Vec::<T, A>::push']) or
+                    strip_generics(cname(t)).endswith(('SchemaBuilder::reserve', 'BuildSchema::append_schema')) or (t.get('callee') or '').endswith('BuildSchema::append_schema'))]
+            same = True
+            for c in ret_keys:
+                if any(c is i_ for i_ in inserted):
+                    continue
+                ao = origin(fb, c['args'][0])
+                rb_, ib_ = blk_of(c), blk_of(inserted[0])
+                from_len = 'len' in ao.flags and 'nodes' in ao.fields and not ao.has_arith()
+                between = [m for m in grow if m in fb.reachable_from(ib_) and rb_ in fb.reachable_from(m)]
+                if not (from_len and rb_ in fb.reachable_from(ib_) and not between):
+                    same = False
+            okr = same
         if via_dup and not okr:
             # returns what build_duplicate returns (the index the node took), with nothing appended to `nodes` between the
             # registration and that call
